@@ -137,7 +137,10 @@ func vsStubExpect(args [][]byte) (rep vsReply, call string, ok bool) {
 		if len(args) == 3 {
 			return vsReply{Kind: '+', Str: "OK"}, vsQJoin("SET", args[1:]) + " nx=false xx=false exp=0", true
 		}
-	case "NOSUCHCMD", "FOO":
+	case "INCR", "DECR", "INCRBY", "DECRBY", "QUIT":
+		return vsReply{}, "", false
+	default:
+		// Not a command of the gateway (whatever bytes the name consists of).
 		return vsReply{Kind: '-'}, "", true
 	}
 	return vsReply{}, "", false
@@ -257,6 +260,9 @@ func vsGenWellFormed(r *sim.Rand, c *sim.Case, inline bool) [][]byte {
 	case 7:
 		return [][]byte{name("SET"), arg(), arg()}
 	case 8:
+		if !inline && r.Intn(2) == 0 {
+			return [][]byte{vsGenBinArg(r), arg()} // arbitrary bytes as command name
+		}
 		return [][]byte{name([]string{"NOSUCHCMD", "FOO"}[r.Intn(2)]), arg()}
 	case 9:
 		if inline {
@@ -471,7 +477,7 @@ func vsClampDigits(b []byte) []byte {
 	return out
 }
 
-// vsDeclared finds the first header in the stream that declares at least 10000
+// vsDeclared finds the first header in the stream that declares at least 1000
 // elements or bytes: "array", "bulk" or "none", and the largest such number.
 func vsDeclared(stream []byte) (string, int64) {
 	kind, max := "none", int64(0)
@@ -483,7 +489,7 @@ func vsDeclared(stream []byte) (string, int64) {
 		for j < len(stream) && j-i <= 19 && stream[j] >= '0' && stream[j] <= '9' {
 			j++
 		}
-		if j-i-1 < 5 {
+		if j-i-1 < 4 {
 			continue
 		}
 		n, err := strconv.ParseInt(string(stream[i+1:j]), 10, 64)
@@ -542,8 +548,14 @@ func vsPlanChunks(stream []byte, plan []int, frag int64) []vsChunk {
 			return out
 		}
 	}
-	if len(plan) == 0 {
-		return []vsChunk{{data: stream}}
+	positive := false
+	for _, p := range plan {
+		if p > 0 {
+			positive = true
+		}
+	}
+	if !positive {
+		plan = append(append([]int(nil), plan...), 7)
 	}
 	var out []vsChunk
 	pos, pi, pauses := 0, 0, 0
@@ -798,9 +810,18 @@ func vsJudgeC31(res *sim.Result, c *sim.Case, di int, mode, declared string, lea
 			}
 			if rep.Kind == '?' {
 				res.Checks++
+				if rep.Int == 1 && (len(lead) < len(vsFramesOf(c)) || c.CfgInt("truncate", 0) > 0) {
+					// The stream ended inside a frame: handleConn returns on EOF without
+					// flushing, so the tail of the last reply may be missing. Replies to
+					// a client that went away in mid-frame are not part of the property.
+					res.Probes["reply_cut_at_eof"]++
+					break
+				}
 				cause := "other"
-				if bytes.Contains(stream, []byte("\r\n")) && len(replies) > 0 && replies[len(replies)-1].Kind == '-' {
-					cause = "after_error_reply"
+				for _, f := range lead {
+					if len(f.args) > 0 && bytes.ContainsAny(f.args[0], "\r\n") {
+						cause = "crlf_in_command_name"
+					}
 				}
 				res.Violate(di, "reply_malformed", map[string]string{"cause": cause},
 					"reply stream is not well-formed RESP (%s) after %d replies; replies start %s; input %s",
